@@ -1,26 +1,27 @@
 (* Props/C01.v — the word under the cursor is completed by the action registered for the slot
    that the program's own parser would put that word in.
 
-   Model/Pflag.v transcribes, for ONE command and long-form words (`--name`, `--name=value`,
-   `--`, words not starting with a dash): pflag's FlagSet.Parse (carapace-pflag v1.0.0, posix)
-   and carapace's traverse loop with its final choice of action.  Proofs/Pflag.v proves that
-   the two agree for every flag set, both interspersed modes, every typed line of the fragment
-   and every current word:
-     C01_slot_sound      whatever slot traverse picks — the argument of a pending flag, the
-                         attached value of `--flag=`, positional i, positional i after `--` —
-                         the program, given the line with the word completed, puts that word
-                         exactly there (and if the program rejects the typed words, traverse
-                         promises nothing)
+   Model/Pflag.v transcribes, for ONE command: pflag's FlagSet.Parse (carapace-pflag v1.0.0,
+   posix: long flags, `--name=value`, shorthand words with chains, attached and `=` values, the
+   lone dash, `--`, both interspersed modes) and carapace's traverse loop with its final choice
+   of action.  Proofs/Pflag.v proves, for every flag set (no flag with the shorthand `=`), every
+   typed line — no restriction on the words — and every current word:
+     C01_slot_sound      whatever slot traverse picks — the argument of a flag left waiting by
+                         `--name`, `-s` or a chain `-bs`, the attached value of `--flag=`,
+                         positional i, positional i after `--` — the program, given the line
+                         with the word completed, puts that word exactly there (and if the
+                         program rejects the typed words, traverse promises nothing)
      C01_parser_is_pflag the explicit look-ahead parser used in the proof is the transcribed one
-     C01_lone_dash_refuted  outside the fragment the statement is false of the code: a lone `-`
-                         before a flag in a non-interspersed command (known finding)
-   Not in the model (decided by the harness, real traverse against real cobra on generated
-   command trees): shorthands and shorthand chains, sub-command descent, persistent flags,
-   aliases — see DESIGN.md. *)
+     C01_chain_pending   the flag a shorthand word leaves waiting is the same for traverse's
+                         LookupArg and for the parser
+   For a current word that is itself a shorthand word the model makes no claim (flag names / the
+   attached value of `-s` are decided by the harness).  Not in the model (decided by the harness,
+   real traverse against real cobra on generated command trees): sub-command descent, persistent
+   flags, aliases, non-posix mode — see DESIGN.md. *)
 From CV Require Import Base.Str Model.Pflag Proofs.Pflag.
 
 Theorem C01_slot_sound : forall fs il ws cur,
-  Forall (fun w => wf_word w = true) ws -> slot_sound fs il ws (traverse fs il ws cur).
+  find_short fs (byte 61) = None -> slot_sound fs il ws (traverse fs il ws cur).
 Proof. exact traverse_slot_sound. Qed.
 Print Assumptions C01_slot_sound.
 
@@ -29,7 +30,11 @@ Theorem C01_parser_is_pflag : forall fs il ws st,
 Proof. exact pfp_is_pf_parse. Qed.
 Print Assumptions C01_parser_is_pflag.
 
-Theorem C01_lone_dash_refuted :
-  ~ slot_sound ex_flags false [B [45]; w_str] (traverse ex_flags false [B [45]; w_str] []).
-Proof. exact lone_dash_refuted. Qed.
-Print Assumptions C01_lone_dash_refuted.
+Theorem C01_chain_pending : forall fs ls, find_short fs (byte 61) = None -> forall sets pend,
+  chain fs ls = Some (sets, pend) ->
+  match lookup_short_letters fs ls with
+  | Some (f, false) => if takes_next f then Some f else None
+  | _ => None
+  end = pend.
+Proof. exact chain_pending. Qed.
+Print Assumptions C01_chain_pending.
